@@ -49,9 +49,22 @@ CONFIGS_THOROUGH = [(c, s) for c in ("g++", "clang++", "clang++-16") for s in ("
 JAVA = "-Xmx2g -Xss512m -XX:TieredStopAtLevel=1 -XX:ParallelGCThreads=2 -DTLA-Library=" + vlib.SPEC
 
 
-def literal_jobs():
+HDR_MEMBERS = {"header": ("blockLength", "templateId", "schemaId", "version"), "dim": ("blockLength", "numInGroup"),
+               "data": ("length",)}
+
+
+def literal_jobs(tier="thorough"):
     """(label, TLA+ expression of the skeleton) - the enumeration itself lives in LiteralMatrix.tla"""
     J = []
+    # level header element types: every primitive (required) in every member the
+    # library computes with; optional / constant for one type (quick) or all (thorough)
+    for role, members in HDR_MEMBERS.items():
+        for m in members:
+            for p in PRIMS:
+                for pres in ("required", "optional", "constant"):
+                    if pres != "required" and tier == "quick" and p != "uint16":
+                        continue
+                    J.append(("hp_%s_%s_%s_%s" % (role, m, p, pres[:3]), 'HdrPrimSk("%s", "%s", "%s", "%s")' % (role, m, p, pres)))
     for p in PRIMS:
         J.append(("lit_" + p, 'LitSk("%s", {"none", "sbe", "rep", "special"})' % p))
         if p not in ("float", "double"):
@@ -189,7 +202,7 @@ def run(v, tier, seed):
     tjobs = [("clash", sk, "Sk" + sk, "none", True) for sk in CLASH_SKELETONS]
     tjobs.append(("fixed", "F", "SkF", "none", True))
     tjobs.append(("keyword", "K", "SkK", "none", True))
-    tjobs += [("literal", lab, expr, "none", True) for lab, expr in literal_jobs()]
+    tjobs += [("literal", lab, expr, "none", True) for lab, expr in literal_jobs(tier)]
     tjobs += [("flaw", sk, "Sk" + sk, fl, False) for sk, fl in FLAWS]
 
     def tjob(j):
